@@ -831,4 +831,31 @@ theorem mapTypes_slots (ts : List Ty) (fs : List Fmt) (h : mapTypes ts = .ok fs)
           ih rest hr (fun x hx => hb x (List.mem_cons_of_mem _ hx))]
         omega
 
+
+/-! ### dataclass inheritance chains -/
+
+theorem nearest_self (conv : List Nat) (k : Nat) (h : k ∈ conv) : nearest conv k = some k := by
+  cases k with
+  | zero => simp [nearest, h]
+  | succ k => simp [nearest, h]
+
+theorem mem_runInst (evs : List Nat) (k : Nat) : k ∈ runInst evs ↔ k ∈ evs := by
+  unfold runInst
+  suffices h : ∀ (acc : List Nat), k ∈ evs.foldl (fun conv k => k :: conv) acc ↔ k ∈ evs ∨ k ∈ acc by
+    simp [h []]
+  induction evs with
+  | nil => simp
+  | cons e es ih =>
+    intro acc
+    simp only [List.foldl_cons, ih, List.mem_cons]
+    constructor
+    · rintro (h | h | h)
+      · exact Or.inl (Or.inr h)
+      · exact Or.inl (Or.inl h)
+      · exact Or.inr h
+    · rintro ((h | h) | h)
+      · exact Or.inr (Or.inl h)
+      · exact Or.inl h
+      · exact Or.inr (Or.inr h)
+
 end Ipv8.C20
